@@ -121,9 +121,62 @@ func eq(a, b string) string {
 
 func sel(a, i string) string     { return app("select", a, i) }
 func sto(a, i, v string) string  { return app("store", a, i, v) }
-func add(a, b string) string     { return app("+", a, b) }
-func sub(a, b string) string     { return app("-", a, b) }
-func mul(a, b string) string     { return app("*", a, b) }
+func add(a, b string) string {
+	if x, ok := litBigS(a); ok {
+		if y, ok := litBigS(b); ok {
+			return numBig(new(big.Int).Add(x, y))
+		}
+	}
+	return app("+", a, b)
+}
+func sub(a, b string) string {
+	if x, ok := litBigS(a); ok {
+		if y, ok := litBigS(b); ok {
+			return numBig(new(big.Int).Sub(x, y))
+		}
+	}
+	return app("-", a, b)
+}
+func mul(a, b string) string {
+	if x, ok := litBigS(a); ok {
+		if y, ok := litBigS(b); ok {
+			return numBig(new(big.Int).Mul(x, y))
+		}
+	}
+	return app("*", a, b)
+}
+
+func litBigS(s string) (*big.Int, bool) {
+	neg := false
+	if len(s) > 4 && s[:3] == "(- " && s[len(s)-1] == ')' {
+		neg = true
+		s = s[3 : len(s)-1]
+	}
+	if s == "" || len(s) > 100 {
+		return nil, false
+	}
+	for _, ch := range s {
+		if ch < '0' || ch > '9' {
+			return nil, false
+		}
+	}
+	n, ok := new(big.Int).SetString(s, 10)
+	if !ok {
+		return nil, false
+	}
+	if neg {
+		n.Neg(n)
+	}
+	return n, true
+}
+func divT(a, b string) string {
+	if x, ok := litBigS(a); ok {
+		if y, ok := litBigS(b); ok && y.Sign() > 0 {
+			return numBig(new(big.Int).Div(x, y))
+		}
+	}
+	return app("div", a, b)
+}
 func le(a, b string) string      { return app("<=", a, b) }
 func lt(a, b string) string      { return app("<", a, b) }
 func ge(a, b string) string      { return app(">=", a, b) }
